@@ -91,7 +91,7 @@ FACTS = [
      ["if $open { self . readiness . arm_writable ( ) ; }"],
      "update_initial_window_size no longer arms WRITABLE when a SETTINGS change re-opens a stream window"),
     ("h2", "handle_settings_frame",
-     ["if self . update_initial_window_size ( ...{8} ) { ...{8} return self . goaway ( H2Error :: FlowControlError ) ;"],
+     ["if self . {update_initial_window_size} ( ...{8} ) { ...{8} return self . goaway ( H2Error :: FlowControlError ) ;"],
      "handle_settings_frame: an invalid SETTINGS_INITIAL_WINDOW_SIZE is no longer GOAWAY(FLOW_CONTROL_ERROR)"),
     ("h2", "handle_settings_frame",
      ["! ( 16384 .. 16777216 ) . contains ( & $s . value )", "! ( 16384 ..= 16777215 ) . contains ( & $s . value )",
@@ -118,13 +118,13 @@ FACTS = [
      ["if let StreamState :: Linked ( $t ) = ...{14} { ...{4} $ep . readiness_mut ( $t ) . arm_writable ( ) ;"],
      "handle_data_frame no longer arms WRITABLE on the linked endpoint when it queues body bytes for it"),
     ("h2", "handle_data_frame",
-     ["self . flow_control . received_bytes_since_update += $wire ; if self . flow_control . received_bytes_since_update >= ...{12} { "
-      "self . queue_window_update ( 0 , self . flow_control . received_bytes_since_update ) ; self . flow_control . received_bytes_since_update = 0 ;"],
+     ["self . flow_control . $acc += $wire ; if self . flow_control . $acc >= ...{12} { "
+      "self . {queue_window_update} ( 0 , self . flow_control . $acc ) ; self . flow_control . $acc = 0 ;"],
      "handle_data_frame no longer credits the connection window with the whole wire payload (padding included) of every DATA frame "
      "(on both paths: known stream, and stream already gone)", 2),
     ("h2", "handle_data_frame",
-     ["if ! $d . end_stream { if ...{30} { self . queue_window_update ( $d . stream_id , $wire ) ; } else { "
-      "* self . recv_credit_owed . entry ( $d . stream_id ) . or_insert ( 0 ) += $wire ; }"],
+     ["if ! $d . end_stream { if ...{30} { self . {queue_window_update} ( $d . stream_id , $wire ) ; } else { "
+      "* self . $owedmap . entry ( $d . stream_id ) . or_insert ( 0 ) += $wire ; }"],
      "handle_data_frame no longer owes the stream the whole wire payload (padding included) of a DATA frame (credited at once only when the payload is discarded)"),
     ("h2", "new",
      ["settings_initial_window_size : 65535 . min ( ...{30} . capacity ( ) as u32 )", "settings_initial_window_size : ( ...{30} . capacity ( ) as u32 ) . min ( 65535 )",
@@ -135,28 +135,28 @@ FACTS = [
       ". saturating_sub ( self . local_settings . settings_initial_window_size . saturating_sub ( * $owed ) ) . min ( * $owed ) > 0 { * $owed -="],
      "release_stream_credit no longer grants min(owed, free space of the buffer read into - the peer's remaining window)"),
     ("h2", "release_stream_credit",
-     ["for & ( $sid , $g ) in & $grants { self . queue_window_update ( $sid , $g ) ; }",
-      "for ( $sid , $g ) in $grants { self . queue_window_update ( $sid , $g ) ; }"],
+     ["for & ( $sid , $g ) in & $grants { self . {queue_window_update} ( $sid , $g ) ; }",
+      "for ( $sid , $g ) in $grants { self . {queue_window_update} ( $sid , $g ) ; }"],
      "release_stream_credit no longer queues the WINDOW_UPDATE of what it grants"),
     ("h2", "try_resume_reading",
-     ["self . release_stream_credit ( $ctx )"],
+     ["self . {release_stream_credit} ( $ctx )"],
      "try_resume_reading (run after the other side of the session wrote) no longer releases stream credit"),
     ("h2", "write_streams",
-     ["if self . wire_opened . len ( ) >= ( self . peer_settings . settings_max_concurrent_streams as usize ) || ...{40} != Some ( ...{8} ) { continue ; }",
-      "if self . wire_opened . len ( ) >= self . peer_settings . settings_max_concurrent_streams as usize || ...{40} != Some ( ...{8} ) { continue ; }"],
+     ["if self . $wo . len ( ) >= ( self . peer_settings . settings_max_concurrent_streams as usize ) || ...{40} != Some ( ...{8} ) { continue ; }",
+      "if self . $wo . len ( ) >= self . peer_settings . settings_max_concurrent_streams as usize || ...{40} != Some ( ...{8} ) { continue ; }"],
      "write_streams no longer holds back a backend stream that would exceed the peer's MAX_CONCURRENT_STREAMS"),
     ("h2", "end_stream",
-     ["self . pending_rst_streams . push ( ( $id , H2Error :: Cancel ) ) ;"],
+     ["self . $q . push ( ( $id , H2Error :: Cancel ) ) ;"],
      "end_stream on a backend connection no longer queues the RST_STREAM(CANCEL) of a cancelled request"),
     ("mod", "ready",
      ["self . frontend . try_resume_reading ("],
      "Mux::ready no longer lets the frontend resume reading / release credit after a backend wrote"),
     ("mod", "ready",
-     ["for ( $_ , $b ) in self . router . backends . iter_mut ( ) { ...{60} $b . try_resume_reading ( ...{8} ) ...{30} { all_backends_readiness_are_empty = false ;",
-      "for $b in self . router . backends . values_mut ( ) { ...{60} $b . try_resume_reading ( ...{8} ) ...{30} { all_backends_readiness_are_empty = false ;"],
+     ["for ( $_ , $b ) in self . router . backends . iter_mut ( ) { ...{60} $b . try_resume_reading ( ...{8} ) ...{30} { $empty = false ;",
+      "for $b in self . router . backends . values_mut ( ) { ...{60} $b . try_resume_reading ( ...{8} ) ...{30} { $empty = false ;"],
      "Mux::ready no longer lets the backends resume reading / release credit after the frontend wrote"),
     ("mod", "ready",
-     ["if ...{30} { $r . remove ( Ready :: HUP ) ; $r . remove ( Ready :: ERROR ) ; } if ! $r . is_empty ( ) { all_backends_readiness_are_empty = false ;"],
+     ["if ...{30} { $r . remove ( Ready :: HUP ) ; $r . remove ( Ready :: ERROR ) ; } if ! $r . is_empty ( ) { $empty = false ;"],
      "Mux::ready counts the HUP/ERROR bits of a hung-up backend as pending work again (spins until MAX_LOOP_ITERATIONS closes the session)"),
     ("converter", "call",
      ["self . window -= i32 :: try_from ( $n ) . unwrap_or ( 2147483647 ) ;"],
@@ -199,8 +199,18 @@ def translate():
             consts[n] = int(m.group("v"))
         else:
             fails.append("h2.rs: constant %s found neither by name nor by its use" % n)
+    # current names of the private functions other facts call: the function that holds the defining code
+    names = {}
+    for key, pat in (("queue_window_update", "* $e = $e . saturating_add ( $inc ) . min ( 2147483647 ) ;"),
+                     ("release_stream_credit", ". saturating_sub ( self . local_settings . settings_initial_window_size . saturating_sub ( * $owed ) ) . min ( * $owed )"),
+                     ("update_initial_window_size", "$open |= * $sw <= 0 && $nw > 0 ;")):
+        names[key] = key
+        if not h2.has_fn(key) and rsfacts.find_anywhere(h2, pat):
+            names[key] = rsfacts.m_name[0]
     for fact in FACTS:
         (k, fn, pats, msg), times = fact[:4], (fact[4] if len(fact) > 4 else 1)
+        fn = names.get(fn, fn)
+        pats = [re.sub(r"\{([a-z_]+)\}", lambda m: names.get(m.group(1), m.group(1)), p) for p in pats]
         try:
             if times == 1:
                 found = any(srcs[k].find(fn, p) for p in pats)
@@ -210,7 +220,9 @@ def translate():
             if not found:
                 fails.append(msg)
         except rsfacts.Unreadable as ex:
-            fails.append("%s (%s)" % (msg, ex))
+            # the function is not there under that name (a private function renamed): the same code anywhere in the file
+            if not any(rsfacts.find_anywhere(srcs[k], p) for p in pats):
+                fails.append("%s (%s)" % (msg, ex))
         except Exception as ex:
             fails.append("%s (translator error %r)" % (msg, ex))
     if len(consts) == len(H2_CONSTS):
